@@ -53,12 +53,17 @@ func newGen(rng *rand.Rand, p profile) func(h *histRun, i int) *hop {
 	g.nOps = p.minOps + rng.Intn(p.maxOps-p.minOps+1)
 	g.sort = pick(rng, p.sorts)
 	shared := rng.Float64() < p.pShareIdent
+	seeded := rng.Intn(5) == 0
 	for r := 0; r < g.nReps; r++ {
 		id := identNames[r%len(identNames)]
 		if shared && r > 0 && rng.Intn(2) == 0 {
 			id = identNames[0]
 		}
 		o := hop{Kind: "new", LogID: "L", Ident: id, Sort: g.sort}
+		if seeded && rng.Intn(3) > 0 {
+			// opened with a clock of its own: small, around 2^53 (where float64 has gaps), wall-clock nanoseconds, 2^62
+			o.Clock = pick(rng, []int{7, 41, 1<<53 - 2, 1 << 53, 1<<53 + 1, 1700000000000000001, 1 << 62}) + rng.Intn(3)
+		}
 		if rng.Float64() < p.pDenyLog {
 			o.Deny = []string{pick(rng, identNames)}
 		}
